@@ -24,6 +24,9 @@ EVID = os.path.join(ROOT, 'evidence')
 KF_FILE = os.path.join(ROOT, 'known_findings.json')
 
 
+ENGINE_IDENTITIES = ['concat_empty_split', 'concat_slices', 'sub_anchor']
+
+
 class Ob:
     """One proof obligation: harness function + bound parameters + expectation."""
 
@@ -135,6 +138,24 @@ def main(argv=None):
             if bad:
                 harness_errors.append('model/tool disagreement in %s: %r' % (name, bad[:3]))
 
+    # 1b. engine self-test: symbolic regex matcher vs CPython on the regexes of the code under test
+    selftest = None
+    if hasattr(prop, 'regex_selftest'):
+        env = dict(os.environ, PYTHONPATH=ROOT, PYTHONDONTWRITEBYTECODE='1', VPX_PARAMS='{}')
+        r = subprocess.run([PY, '-m', 'vpx.selftest', 'vpx.props.' + pid.lower()], env=env,
+                           capture_output=True, cwd=ROOT, timeout=1200)
+        for line in r.stdout.decode(errors='replace').splitlines():
+            if line.startswith('VPXRESULT '):
+                selftest = json.loads(line[len('VPXRESULT '):])
+        if selftest is None:
+            harness_errors.append('engine self-test crashed: ' +
+                                  r.stderr.decode(errors='replace')[-600:])
+        else:
+            validated += selftest['n'] - selftest['ndiffs']
+            if selftest['ndiffs']:
+                harness_errors.append('engine self-test: symbolic regex matcher differs from '
+                                      'CPython: %r' % selftest['diffs'][:3])
+
     # 2. direct z3 queries (E2) ----------------------------------------------------------
     e2 = []
     if hasattr(prop, 'e2'):
@@ -151,6 +172,10 @@ def main(argv=None):
         ob.module = ob.module or prop.HARNESS
     if args.only:
         obs = [o for o in obs if args.only in o.name]
+    else:
+        for fn in ENGINE_IDENTITIES:
+            obs.append(Ob(fn, {}, 120, 'engine', 'vpx.harness.engine',
+                          'engine regression identity (must be Confirmed)'))
     rnd = random.Random(seed)
     order = sorted(obs, key=lambda o: -o.timeout)
     if seed:
@@ -209,6 +234,10 @@ def main(argv=None):
                                                'concrete': rp, 'real': real})
             else:
                 harness_errors.append('%s: %s: %s' % (ob.name, v, (r.get('message') or '')[:500]))
+        elif ob.role == 'engine':
+            if v != 'confirmed':
+                harness_errors.append('engine regression identity %s came back %s: %s' % (
+                    ob.fn, v, (r.get('message') or '')[:200]))
         elif ob.role == 'reach':
             if v == 'refuted':
                 pass
@@ -301,7 +330,7 @@ def main(argv=None):
         'bounds': prop.bounds(tier) if hasattr(prop, 'bounds') else {},
         'outside_bounds': getattr(prop, 'OUTSIDE', []),
         'stubs': getattr(prop, 'STUBS', []),
-        'conformance': conf, 'z3_queries': e2,
+        'conformance': conf, 'z3_queries': e2, 'engine_selftest': selftest,
         'solver_time_s': round(solver_cpu, 1),
         'sensitivity_twins_refuted': mutants_killed,
         'known_findings_reported': kf_lines,
